@@ -127,18 +127,18 @@ Definition out_eq {A} (R : A -> A -> Prop) (a b : outcome A) : Prop :=
   end.
 
 (* ------------------------------------------------------------ Process.cpu_percent *)
-(* 100 * (CPU seconds used) / (wall seconds elapsed) between two readings
-   (timer seconds, utime ticks, stime ticks); 0 when no time elapsed *)
-Definition reading := (Q * Z * Z)%type.
-Definition spec_proc_pct (clk : positive) (a b : reading) : Q :=
-  let '(ta, ua, sa) := a in let '(tb, ub, sb) := b in
-  if qzero (tb - ta) then 0%Q else (100 * secs clk ((ub - ua) + (sb - sa)) / (tb - ta))%Q.
+(* 100 * (CPU seconds the process used) / (wall seconds elapsed) between two readings;
+   0 when no time elapsed.  "CPU seconds the process used" = utime + stime of the process
+   itself: the time of waited-for children (cutime, cstime) and the block-I/O delay
+   (delayacct_blkio_ticks, reported as iowait) are in the tuple but DO NOT count. *)
+Definition spec_proc_pct (clk : positive) (a b : preading) : Q :=
+  if qzero (r_t b - r_t a) then 0%Q
+  else (100 * secs clk ((r_u b - r_u a) + (r_s b - r_s a)) / (r_t b - r_t a))%Q.
 
-Definition pe_first (e : pevent) : reading := (pe_t1 e, pe_u1 e, pe_s1 e).
-Definition pe_last (e : pevent) : reading :=
-  if is_pos (pe_iv e) then (pe_t2 e, pe_u2 e, pe_s2 e) else pe_first e.
+Definition pe_first (e : pevent) : preading := pe_r1 e.
+Definition pe_last (e : pevent) : preading := if is_pos (pe_iv e) then pe_r2 e else pe_r1 e.
 
-Definition spec_proc_prev (hist : list (Z * pevent)) (o : Z) : option reading :=
+Definition spec_proc_prev (hist : list (Z * pevent)) (o : Z) : option preading :=
   match find (fun h => (fst h =? o) && negb (is_neg (pe_iv (snd h)))) hist with
   | Some h => Some (pe_last (snd h))
   | None => None
@@ -148,10 +148,10 @@ Definition spec_proc_result (clk : positive) (hist : list (Z * pevent)) (oe : Z 
   let '(o, e) := oe in
   match pe_iv e with
   | INeg => Exc ValueError
-  | IPos => Val (spec_proc_pct clk (pe_first e) (pe_t2 e, pe_u2 e, pe_s2 e))
+  | IPos => Val (spec_proc_pct clk (pe_r1 e) (pe_r2 e))
   | INone | IZero =>
     match spec_proc_prev hist o with
-    | Some p => Val (spec_proc_pct clk p (pe_first e))
+    | Some p => Val (spec_proc_pct clk p (pe_r1 e))
     | None => Val 0%Q              (* first call of this object *)
     end
   end.
